@@ -85,7 +85,8 @@ InitExpr(name) ==
       [] name = "+-1" -> Add(<<Mul(<<Un("+", Un("-", Num(1)))>>, <<>>)>>, <<>>)
 
 \* an operand: an int (also standing for Decimal), or an expression
-OperandExpr(o) == IF o[1] = "int" THEN FromInt(o[2])
+OperandExpr(o) == IF o[1] = "self" THEN e               \* the expression combined with itself (a + a, a *= a)
+                  ELSE IF o[1] = "int" THEN FromInt(o[2])
                   ELSE IF o[1] = "neg" THEN Unary(InitExpr(o[2]), "-")     \* the direct result of a unary minus
                   ELSE InitExpr(o[2])
 
